@@ -640,3 +640,24 @@ Proof.
 Qed.
 
 End Steps.
+
+(** * The replayed instance ([tddh_step] of Mgr/TddHist.v: empty association-list cache, operands
+    never swapped, seeded with any TdOK table, e.g. the lifted snapshot of a real manager) *)
+Theorem tddh_step_ok : forall s o, TdOK s -> top_pre_b acache (mkT acache s []) o = true ->
+  exists st', tstep (fun _ _ => false) acache ac_get ac_add [] (mkT acache s []) o = Some st' /\
+    tddh_step s o = Some (t_s acache st') /\ TInv acache ac_get st' /\
+    tframe acache (mkT acache s []) o st' /\ tpost acache (mkT acache s []) o st'.
+Proof.
+  intros s o B P.
+  assert (I : TInv acache ac_get (mkT acache s [])) by (split; [exact B | apply tac_empty_ok]).
+  destruct (tstep_ok (fun _ _ => false) acache ac_get ac_add [] ac_lossy (fun _ _ => eq_refl) _ o I P)
+    as [st' [E [I' [F Po]]]].
+  exists st'. split; [exact E|]. split; [unfold tddh_step; rewrite E; reflexivity|]. auto.
+Qed.
+
+(** the model refuses a call only if its precondition fails (empty operand slot, unknown variable) *)
+Theorem tddh_step_none : forall s o, TdOK s -> tddh_step s o = None -> top_pre_b acache (mkT acache s []) o = false.
+Proof.
+  intros s o B E. destruct (top_pre_b acache (mkT acache s []) o) eqn:P; [|reflexivity].
+  destruct (tddh_step_ok s o B P) as [st' [_ [E' _]]]. congruence.
+Qed.
